@@ -1,5 +1,5 @@
 # Table of claimed properties (read by manifest_gen.py).  claim(pid, technique, text, residue, design_ref) / na(pid, reason)
-claim("C12", "MIR mask constant-folding + path-valuation dominance + who-may-write",
+claim("C12", "path-sensitive abstract evaluation of the typed HIR over uninterpreted atoms (decision-table derivation, helpers inlined) + MIR mask constant-folding + path-valuation dominance + who-may-write",
       "Decides for all indices/values: set/clear/test masks are a single bit and its exact complement for each of the 8 offsets (constant folding of the "
       "MIR mask expressions), byte/bit geometry, every *_unchecked call is control-dependent on index < len, the revocation one-way test "
       "(purpose==Revocation && !value && current) can never reach StatusList2021::set or Ok on any CFG path, who may call set / write encoded_list, "
@@ -7,7 +7,7 @@ claim("C12", "MIR mask constant-folding + path-valuation dominance + who-may-wri
       "the behaviour on concrete compressed data is not executed.",
       "gzip/base64 round trip on concrete lists; minimum size of decoded lists.", "DESIGN.md §7 C12")
 
-claim("C11", "HIR structural-dominance guard inventory + decision-table extraction + field-coverage + spec-table agreement",
+claim("C11", "path-sensitive abstract evaluation of the typed HIR over uninterpreted atoms (decision-table derivation, helpers inlined) + HIR structural-dominance guard inventory + decision-table extraction + field-coverage + spec-table agreement",
       "Decides for all header contents: validate_jws_headers is the conjunction of the disjointness, crit and b64 validators applied to (protected, unprotected) and "
       "every encoder constructor and the decoder can only succeed after it succeeded; validate_crit's five rejections are present with the right polarity and "
       "outcome and its tables reject every RFC 7515/7516/7518 registered name and permit only implemented extensions; validate_b64's table (incl. the composition that "
@@ -15,7 +15,7 @@ claim("C11", "HIR structural-dominance guard inventory + decision-table extracti
       "dominates success; verify() requires a protected header with alg; JSON containers deny unknown fields. The statement is a decision table; the rules extract it from the code.",
       "serde's handling of duplicate member names inside one JSON header object.", "DESIGN.md §7 C11")
 
-claim("C01", "HIR argument-provenance (origin) analysis + MIR success-edge dominance + construction-site enumeration + decision tables",
+claim("C01", "path-sensitive abstract evaluation of the typed HIR over uninterpreted atoms (decision-table derivation, helpers inlined) + HIR argument-provenance (origin) analysis + MIR success-edge dominance + construction-site enumeration + decision tables",
       "Decides on every path of the decoder and verifiers: the signing input is create_message(bytes of the received protected segment, received payload) with "
       "header,'.',payload appended in that order and nothing re-serialised; JwsValidationItem/DecodedJws are constructed at exactly one site each and never mutated; "
       "alg and b64 are read only from the protected header; Ok(DecodedJws) is dominated by the success edges of Jwk::check_alg(protected alg) and JwsVerifier::verify(input built "
@@ -24,14 +24,14 @@ claim("C01", "HIR argument-provenance (origin) analysis + MIR success-edge domin
       "dispatch tables; no caller drops the verification result. Necessary structural conditions of the binding, not an execution of signatures.",
       "that the crypto libraries reject every mutated message/signature; base64 decoder strictness.", "DESIGN.md §7 C01")
 
-claim("C02", "HIR structural dominance (tried-call / guard inventory) + argument provenance + MIR success-edge dominance + decision tables + comparison-role normalisation",
+claim("C02", "path-sensitive abstract evaluation of the typed HIR over uninterpreted atoms (decision-table derivation, helpers inlined) + HIR structural dominance (tried-call / guard inventory) + argument provenance + MIR success-edge dominance + decision tables + comparison-role normalisation",
       "Decides on every path: validate = verify_signature ✓ then validate_decoded_credential on the verified token; verify_signature_with_verifier's Ok is dominated by decode, parse_jwk, "
       "verify_decoded_signature (→ JwsValidationItem::verify, C01) and extract_issuer successes and by issuer == method_id.did(); parse_jwk's full nonce equality dominates, the method id is the "
       "configured one or DIDUrl::parse(protected kid), the issuer document is selected by DID equality and the key resolved in options.method_scope; the five validation units call the five checks "
       "with the configured bounds and all flow into the error collector, fail-fast table, Ok iff no error, returned token is the validated one; the unit predicates' comparison roles "
       "(expiry ≥ bound or absent, issuance ≤ bound), subject-holder and status tables, bitmap membership test and Credential::check_structure guards.",
       "truth of the conjunction on concrete inputs is implied only together with C01/C06/C13 and not separately executed; DID parser acceptance (C10).", "DESIGN.md §7 C02")
-claim("C07", "HIR field-flow coverage against struct definitions + abstract Option/bool evaluation of the consistency guards + serde attribute wiring",
+claim("C07", "path-sensitive abstract evaluation of the typed HIR over uninterpreted atoms (decision-table derivation, helpers inlined) + HIR field-flow coverage against struct definitions + abstract Option/bool evaluation of the consistency guards + serde attribute wiring",
       "Decides for all credentials/presentations/claims sets: both `new` constructors destructure exhaustively (no `..`) and carry every field of Credential/Presentation (taken from the ADT) "
       "into exactly the registered claim or the same-named vc/vp member, duplicated members None; both try_into_* rebuild every field from the matching claim and discard only the duplicated members; "
       "check_consistency ✓ dominates reconstruction, compares exactly the discarded members, and — by abstract evaluation of its guards under presence assumptions — rejects a present vc/vp member whose "
@@ -39,7 +39,7 @@ claim("C07", "HIR field-flow coverage against struct definitions + abstract Opti
       "both absent an error); every skip_serializing_if field is Option or defaulted.",
       "JSON-level equality of arbitrary properties/custom maps (serde flatten collisions); serde round trip of the individual field types.", "DESIGN.md §7 C07")
 
-claim("C03", "HIR structural dominance + argument provenance + comparison-role normalisation + MIR success-edge dominance",
+claim("C03", "path-sensitive abstract evaluation of the typed HIR over uninterpreted atoms (decision-table derivation, helpers inlined) + HIR structural dominance + argument provenance + comparison-role normalisation + MIR success-edge dominance",
       "Decides on every path of JwtPresentationValidator::validate and CoreDocument::verify_jws: Ok is dominated by verify_jws ✓ on the holder parameter with the configured verifier options "
       "and the validator's own verifier; claims are parsed from the verified payload; CoreDID::from_str(claims.iss) ✓ and whole-DID equality with holder.id() dominate; expiry (absent or ≥ bound) and "
       "issuance (absent or ≤ bound; present whenever iat OR nbf is) checks are unconditional `?` statements with the right comparison roles; every returned value derives from the verified claims / "
@@ -47,7 +47,7 @@ claim("C03", "HIR structural dominance + argument provenance + comparison-role n
       "DIDUrlQuery::matches requires DID equality when present and both fragments equal.",
       "truth of the conjunction on concrete tokens (with C01, C10, C13); first-match semantics of resolve_method.", "DESIGN.md §7 C03")
 
-claim("C19", "MIR who-may-write enumeration of the inner Vec + allowed-primitive table + path-valuation guards + HIR shape of change()/remove()/constructors + serde wiring",
+claim("C19", "path-sensitive abstract evaluation of the typed HIR over uninterpreted atoms (decision-table derivation, helpers inlined) + MIR who-may-write enumeration of the inner Vec + allowed-primitive table + path-valuation guards + HIR shape of change()/remove()/constructors + serde wiring",
       "Decides for all operation sequences the per-operation shape the list model depends on: the inner Vec is private and mutated only by append/prepend/change/remove/clear (three reviewed *_mut "
       "escapes), each using only its allowed Vec primitive (e.g. order-preserving Vec::remove, never swap_remove); push/insert(0) are reachable only on the !contains edge and the refusal path mutates "
       "nothing, result flags match; contains is key equality over the whole Vec; change() takes the first match, drains index.., keeps !f entries, re-appends them and inserts data at that index; "
@@ -55,7 +55,7 @@ claim("C19", "MIR who-may-write enumeration of the inner Vec + allowed-primitive
       "reviewed sites after len checks, TryFrom<Vec> for OneOrSet goes through the duplicate-checking OrderedSet::try_from, empty sets are rejected on deserialisation; OneOrMany normalisation.",
       "order/content equality with a list model over whole histories; KeyComparable impls of element types.", "DESIGN.md §7 C19")
 
-claim("C08", "HIR argument-provenance identity between signed and emitted operands + format-template decoding + char-class table extraction vs spec + guard/setter inventory of create_jws",
+claim("C08", "path-sensitive abstract evaluation of the typed HIR over uninterpreted atoms (decision-table derivation, helpers inlined) + HIR argument-provenance identity between signed and emitted operands + format-template decoding + char-class table extraction vs spec + guard/setter inventory of create_jws",
       "Decides for all payloads/headers/options on the producing side: every signing_input field is the result of the single create_message formula; in each encoder the protected segment "
       "and payload placed in the token are the very operands that were signed (compact templates `{h}.{p}.{sig}` / `{h}..{sig}` decoded from the format arguments); encoder and decoder agree on the "
       "b64 default; CharSet::Default/UrlSafe equal the specified character sets and '.' is rejected for unencoded attached compact payloads, and the compact encoder applies that validator; "
@@ -63,14 +63,14 @@ claim("C08", "HIR argument-provenance identity between signed and emitted operan
       "from the same method's digest, signs the encoder's signing input and returns into_jws(signature); verify_jws side shared with C03-R6.",
       "cryptographic separation between methods' keys; JSON escaping in flattened/general form; the decoding half is C01/C11.", "DESIGN.md §7 C08")
 
-claim("C13", "MIR construction-site enumeration (constructor gate) + HIR guard dominance + argument provenance + derived-impl / serde attribute shape + MIR expression folding of the Duration constructors",
+claim("C13", "path-sensitive abstract evaluation of the typed HIR over uninterpreted atoms (decision-table derivation, helpers inlined) + MIR construction-site enumeration (constructor gate) + HIR guard dominance + argument provenance + derived-impl / serde attribute shape + MIR expression folding of the Duration constructors",
       "Decides for all inputs: Timestamp(..) is constructed only in from_unix — where Ok is dominated by (0..10_000).contains(year) of the value converted from the `seconds` argument — and in now_utc "
       "(reviewed: system clock); parse returns only from_unix(parsed.unix_timestamp()) (UTC normalisation, whole seconds, range gate; no panicking to_offset); every TryFrom/FromStr entry delegates to parse; "
       "checked_add/sub route the time crate's checked result through from_unix; the Duration constructors pass their u32 argument widened to i64 to the same-named time constructor (no u32 scaling); "
       "Eq/Ord/Hash are the derived field-wise impls on the single private OffsetDateTime field; serde try_from/into wiring.",
       "correctness of the `time` crate's RFC 3339 parser/formatter and unix conversion; leap seconds.", "DESIGN.md §7 C13")
 
-claim("C10", "MIR construction-site gate (must-pass-success of check_validity) + HIR guard inventory + field-pair coverage of eq/cmp/hash/Display + character-class extraction vs W3C DID / RFC 3986 tables",
+claim("C10", "path-sensitive abstract evaluation of the typed HIR over uninterpreted atoms (decision-table derivation, helpers inlined) + MIR construction-site gate (must-pass-success of check_validity) + HIR guard inventory + field-pair coverage of eq/cmp/hash/Display + character-class extraction vs W3C DID / RFC 3986 tables",
       "Decides for all strings/segments: CoreDID(..) is constructed only on paths that passed check_validity (method name, method id, scheme, no path/query/fragment) and every string/serde entry "
       "delegates to it; setters write only after their validator succeeded, each with its own character class and delimiter normalisation, and only the setters write RelativeDIDUrl's private fields; "
       "DIDUrl is built only at four reviewed sites, from_base_did_url validates all three segments and strips them before building the DID, join requires a leading '/', '?' or '#' and returns through "
@@ -78,7 +78,7 @@ claim("C10", "MIR construction-site gate (must-pass-success of check_validity) +
       "fields; DIDUrl composes did then url; the five character classes equal the specification sets exactly and every percent escape requires '%' + exactly two hex digits.",
       "what the external did_url_parser accepts/normalises (incl. its panic on a trailing percent escape, reported under C05); verbatim reproduction of the input.", "DESIGN.md §7 C10")
 
-claim("C06", "constant-agreement of the legacy-format magic with the writer's zlib header (computed from the spec bytes) + writer/reader pairing + short-write/io-result discipline + HIR provenance of the read-modify-write + loop-shape of the batch closures",
+claim("C06", "path-sensitive abstract evaluation of the typed HIR over uninterpreted atoms (decision-table derivation, helpers inlined) + constant-agreement of the legacy-format magic with the writer's zlib header (computed from the spec bytes) + writer/reader pairing + short-write/io-result discipline + HIR provenance of the read-modify-write + loop-shape of the batch closures",
       "Decides for all bitmaps/batches: the prefix separating the current from the legacy encoding is a prefix of the only input-independent characters the writer emits (zlib header 78 9C → \"eJ\") and "
       "does not match legacy strings; writer and reader agree on Base64Url, zlib (complete writes, io results propagated), roaring serialize_into/deserialize_from and the data-url prefix; "
       "update_revocation_bitmap decodes from the queried service, applies the closure once and swaps in to_endpoint() of that bitmap after its error was propagated; the revoke/unrevoke closures apply "
@@ -86,7 +86,7 @@ claim("C06", "constant-agreement of the legacy-format magic with the writer's zl
       "pair equal to it (the validator side is C02-R5).",
       "roaring set semantics and serialisation; zlib/base64 on concrete data.", "DESIGN.md §7 C06")
 
-claim("C04", "MIR constructor gate + who-may-write enumeration of the seven guarded collections + sibling agreement of the three id gates + HIR mutation-before-error inventory + variant↔collection bijection tables + serde wiring",
+claim("C04", "path-sensitive abstract evaluation of the typed HIR over uninterpreted atoms (decision-table derivation, helpers inlined) + MIR constructor gate + who-may-write enumeration of the seven guarded collections + sibling agreement of the three id gates + HIR mutation-before-error inventory + variant↔collection bijection tables + serde wiring",
       "Decides for all mutation histories the per-operation invariants the uniqueness argument rests on: CoreDocument{data} is built only after check_id_constraints ✓ (map_unchecked reviewed), "
       "CoreDocumentData is crate-private and deserialisation goes through it; only eleven reviewed functions obtain mutable access to any of the seven guarded collections; the three gates "
       "(check_id_constraints, insert_service, insert_method) consult the same universe — raw ids of all relationship entries incl. unresolved references, general-purpose methods, services; every "
@@ -94,7 +94,7 @@ claim("C04", "MIR constructor gate + who-may-write enumeration of the seven guar
       "table maps each variant to its own collection; remove_method_and_scope removes the id from all five relationship sets and the general set without early exit; serde defaults/untagged order.",
       "equality with an abstract model over histories; DIDUrlQuery first-match semantics; concrete JSON round trips.", "DESIGN.md §7 C04")
 
-claim("C16", "MIR result-discipline (T9) over every fallible call of the SD-JWT paths + HIR structural dominance + comparison-role normalisation + guard inventory with option-gating + format-template decoding",
+claim("C16", "path-sensitive abstract evaluation of the typed HIR over uninterpreted atoms (decision-table derivation, helpers inlined) + MIR result-discipline (T9) over every fallible call of the SD-JWT paths + HIR structural dominance + comparison-role normalisation + guard inventory with option-gating + format-template decoding",
       "Decides on every path: no Result of verify / decode / parse_jwk / disclosure decoding / from_unix on the SD-JWT paths is unwrapped, swallowed or dropped (never a crash); verify_signature's Ok is "
       "dominated by decode, parse_jwk (same nonce/kid/scope rules as C02-R3), verify_signature_raw with the validator's verifier and the resolved key, SdObjectDecoder::decode over the *verified* claims "
       "and the supplied disclosures, try_into_credential and issuer == method_id.did(); validate_credential finishes through validate_decoded_credential (C02-R4); the KB-JWT path has, before its single "
@@ -102,14 +102,14 @@ claim("C16", "MIR result-discipline (T9) over every fallible call of the SD-JWT 
       "`{jwt}~{disclosures joined by ~}~` with the hasher named in the SD-JWT, option-gated nonce and aud equalities, iat through from_unix and the earliest/latest/now window with the right relations.",
       "sd-jwt-payload's digest matching and hasher selection; cryptographic outcome.", "DESIGN.md §7 C16")
 
-claim("C17", "MIR construction-site gate + ref-cast obligation over every IotaDocument constructor + HIR predicate/decision extraction + derived-impl shape",
+claim("C17", "path-sensitive abstract evaluation of the typed HIR over uninterpreted atoms (decision-table derivation, helpers inlined) + MIR construction-site gate + ref-cast obligation over every IotaDocument constructor + HIR predicate/decision extraction + derived-impl shape",
       "Decides for all strings/tags/networks: IotaDID(..) is constructed only in try_from_core after check_validity ✓ with the value passed through normalize, and parse/TryFrom/FromStr all route "
       "through it (lower-casing first); check_validity chains method == \"iota\", a 32-byte hex tag and a 1..=6 lowercase-alphanumeric network with short-circuit and_then; normalize drops exactly the "
       "default network; components split at the first ':'; new() formats did:iota:<network>:<hex(bytes)>; Eq/Ord/Hash are derived on the single private normalised field. The ref-cast "
       "from_inner_ref_unchecked obliges every IotaDocument constructor to store a normalised IOTA DID: three constructors do not (known findings D11a, D11b, D14, probe in findings/).",
       "prefix_hex behaviour; to_lowercase on non-ASCII input.", "DESIGN.md §7 C17")
 
-claim("C18", "HIR field coverage against the struct definitions (Option fields = tested = dropped) + format-template decoding vs RFC 7638/8037 + who-may-write enumeration of kty/params + guard dominance in from_builder",
+claim("C18", "path-sensitive abstract evaluation of the typed HIR over uninterpreted atoms (decision-table derivation, helpers inlined) + HIR field coverage against the struct definitions (Option fields = tested = dropped) + format-template decoding vs RFC 7638/8037 + who-may-write enumeration of kty/params + guard dominance in from_builder",
       "Decides for all JWKs: for Ec/Rsa/Okp the Option-typed members are exactly the ones is_public tests and to_public sets to None, every other member is cloned from self (so the projection is "
       "idempotent and contains no private member), Oct has no projection and never reports public; Jwk::to_public starts from the projected params and copies only use/key_ops/alg/kid; the thumbprint "
       "templates contain exactly the required members in lexicographic order, each printing the same-named field; every writer of Jwk::kty/params is enumerated: new, from_params, set_kty, set_params "
@@ -117,7 +117,7 @@ claim("C18", "HIR field coverage against the struct definitions (Option fields =
       "built only in from_builder after `!jwk.is_public()` → PrivateKeyMaterialExposed (and in the pass-through map/try_map); key generation returns the public projection.",
       "SHA-256/base64url steps of the thumbprint.", "DESIGN.md §7 C18")
 
-claim("C14", "writer/reader frame-constant agreement (HIR append sequence vs get ranges) + MIR cast/bounds-check inventory + field coverage of the rewrite against the struct definition + decision extraction of the pack/unpack closures",
+claim("C14", "path-sensitive abstract evaluation of the typed HIR over uninterpreted atoms (decision-table derivation, helpers inlined) + writer/reader frame-constant agreement (HIR append sequence vs get ranges) + MIR cast/bounds-check inventory + field coverage of the rewrite against the struct definition + decision extraction of the pack/unpack closures",
       "Decides for all documents/byte strings: the writer appends marker, version, encoding, u16::to_le_bytes(checked u16::try_from(data.len())), data and the reader takes [0..=2], 3, 4, [5..=6] "
       "(from_le_bytes) and 7..7+len through `get` only (no indexing, no truncating cast); marker/version/encoding/length rejections all precede JSON decoding of exactly the length-delimited slice; "
       "CoreDocumentData::try_map rewrites every DID-bearing field (computed from the struct definition) with its own closure from the same-named source field and passes the rest through; method and "
@@ -133,7 +133,7 @@ claim("C15", "MIR guard-span analysis (single exclusive acquisition, both operat
       "behind an async RwLock and no API returns a guard.",
       "freshness of random key ids; signature/verification pairing (cryptography); actual thread schedules.", "DESIGN.md §7 C15")
 
-claim("C20", "HIR argument provenance + MIR success-edge dominance of the dispatch + structural-identity pairing inside each future + sibling structural-signature comparison + type-shape (no interior mutability, sealed trait)",
+claim("C20", "path-sensitive abstract evaluation of the typed HIR over uninterpreted atoms (decision-table derivation, helpers inlined) + HIR argument provenance + MIR success-edge dominance of the dispatch + structural-identity pairing inside each future + sibling structural-signature comparison + type-shape (no interior mutability, sealed trait)",
       "Decides for all handler tables/DID lists: resolve looks the handler up under did.method() in self.command_map, applies it — only on the Some edge of that lookup — to did.as_str(), and reports "
       "UnsupportedMethodError otherwise; attach_handler registers Command::new(handler) under the given method for both command kinds, attach_did_jwk_handler under DIDJwk::METHOD with expand_did_jwk; "
       "resolve_multiple de-duplicates through a HashSet, each pushed async block resolves its own loop variable with self.resolve and pairs the result with that same DID (no positional zip), results go "
